@@ -4,7 +4,7 @@ import random
 from ..model import load_model
 from ..evalengine import pmap
 from ..histengine import all_actions, run_history, sample_histories, pool_trees, POINTS
-from ..structure import check_reset_dominance, check_reset_complete, check_no_global_state
+from ..structure import check_reset_dominance, check_reset_complete, check_no_global_state, check_no_unreset_state
 
 
 def targeted_histories(actions):
@@ -131,6 +131,7 @@ def check(rep):
     check_reset_dominance(rep, model, "C09.reset-dominance")
     check_reset_complete(rep, model, "C09.reset-complete")
     check_no_global_state(rep, model, "C09.no-global-state")
+    check_no_unreset_state(rep, model, "C09.no-unreset-state")
     rep.extra["histories"] = len(runs)
     rep.sample({"history": runs[7][0], "final": runs[7][1], "result": results[7].get("result")})
     rep.require_floor("C09.history", 8, "kinds of final operation")
